@@ -103,6 +103,12 @@ proofs/AbiFacts.vos proofs/AbiFacts.vok proofs/AbiFacts.required_vos: proofs/Abi
 proofs/ApplyFacts.vo proofs/ApplyFacts.glob proofs/ApplyFacts.v.beautified proofs/ApplyFacts.required_vo: proofs/ApplyFacts.v base/Bits.vo base/Types.vo base/BitBoard.vo base/Sweep.vo geom/Geometry.vo model/Board.vo model/MoveGen.vo model/Apply.vo proofs/BitsFacts.vo proofs/BitBoardFacts.vo proofs/SiteFacts.vo proofs/BridgeFacts.vo proofs/HashFacts.vo spec/Rules.vo
 proofs/ApplyFacts.vio: proofs/ApplyFacts.v base/Bits.vio base/Types.vio base/BitBoard.vio base/Sweep.vio geom/Geometry.vio model/Board.vio model/MoveGen.vio model/Apply.vio proofs/BitsFacts.vio proofs/BitBoardFacts.vio proofs/SiteFacts.vio proofs/BridgeFacts.vio proofs/HashFacts.vio spec/Rules.vio
 proofs/ApplyFacts.vos proofs/ApplyFacts.vok proofs/ApplyFacts.required_vos: proofs/ApplyFacts.v base/Bits.vos base/Types.vos base/BitBoard.vos base/Sweep.vos geom/Geometry.vos model/Board.vos model/MoveGen.vos model/Apply.vos proofs/BitsFacts.vos proofs/BitBoardFacts.vos proofs/SiteFacts.vos proofs/BridgeFacts.vos proofs/HashFacts.vos spec/Rules.vos
+proofs/AttackDefs.vo proofs/AttackDefs.glob proofs/AttackDefs.v.beautified proofs/AttackDefs.required_vo: proofs/AttackDefs.v base/Bits.vo base/Types.vo base/BitBoard.vo geom/Geometry.vo model/Board.vo model/MoveGen.vo model/Apply.vo spec/Rules.vo spec/IterSpec.vo proofs/HashFacts.vo proofs/InvFacts.vo proofs/LegalDefs.vo
+proofs/AttackDefs.vio: proofs/AttackDefs.v base/Bits.vio base/Types.vio base/BitBoard.vio geom/Geometry.vio model/Board.vio model/MoveGen.vio model/Apply.vio spec/Rules.vio spec/IterSpec.vio proofs/HashFacts.vio proofs/InvFacts.vio proofs/LegalDefs.vio
+proofs/AttackDefs.vos proofs/AttackDefs.vok proofs/AttackDefs.required_vos: proofs/AttackDefs.v base/Bits.vos base/Types.vos base/BitBoard.vos geom/Geometry.vos model/Board.vos model/MoveGen.vos model/Apply.vos spec/Rules.vos spec/IterSpec.vos proofs/HashFacts.vos proofs/InvFacts.vos proofs/LegalDefs.vos
+proofs/AttackFacts.vo proofs/AttackFacts.glob proofs/AttackFacts.v.beautified proofs/AttackFacts.required_vo: proofs/AttackFacts.v base/Bits.vo base/Types.vo base/BitBoard.vo base/Sweep.vo geom/Geometry.vo model/Board.vo model/MoveGen.vo model/Apply.vo spec/Rules.vo proofs/BitsFacts.vo proofs/BitBoardFacts.vo proofs/GeomSweeps.vo proofs/SiteFacts.vo proofs/BridgeFacts.vo spec/IterSpec.vo proofs/HashFacts.vo proofs/InvFacts.vo proofs/LegalDefs.vo proofs/AttackDefs.vo
+proofs/AttackFacts.vio: proofs/AttackFacts.v base/Bits.vio base/Types.vio base/BitBoard.vio base/Sweep.vio geom/Geometry.vio model/Board.vio model/MoveGen.vio model/Apply.vio spec/Rules.vio proofs/BitsFacts.vio proofs/BitBoardFacts.vio proofs/GeomSweeps.vio proofs/SiteFacts.vio proofs/BridgeFacts.vio spec/IterSpec.vio proofs/HashFacts.vio proofs/InvFacts.vio proofs/LegalDefs.vio proofs/AttackDefs.vio
+proofs/AttackFacts.vos proofs/AttackFacts.vok proofs/AttackFacts.required_vos: proofs/AttackFacts.v base/Bits.vos base/Types.vos base/BitBoard.vos base/Sweep.vos geom/Geometry.vos model/Board.vos model/MoveGen.vos model/Apply.vos spec/Rules.vos proofs/BitsFacts.vos proofs/BitBoardFacts.vos proofs/GeomSweeps.vos proofs/SiteFacts.vos proofs/BridgeFacts.vos spec/IterSpec.vos proofs/HashFacts.vos proofs/InvFacts.vos proofs/LegalDefs.vos proofs/AttackDefs.vos
 proofs/BitBoardFacts.vo proofs/BitBoardFacts.glob proofs/BitBoardFacts.v.beautified proofs/BitBoardFacts.required_vo: proofs/BitBoardFacts.v base/Bits.vo base/BitBoard.vo proofs/BitsFacts.vo
 proofs/BitBoardFacts.vio: proofs/BitBoardFacts.v base/Bits.vio base/BitBoard.vio proofs/BitsFacts.vio
 proofs/BitBoardFacts.vos proofs/BitBoardFacts.vok proofs/BitBoardFacts.required_vos: proofs/BitBoardFacts.v base/Bits.vos base/BitBoard.vos proofs/BitsFacts.vos
@@ -127,6 +133,9 @@ proofs/Combine.vos proofs/Combine.vok proofs/Combine.required_vos: proofs/Combin
 proofs/CoreFacts.vo proofs/CoreFacts.glob proofs/CoreFacts.v.beautified proofs/CoreFacts.required_vo: proofs/CoreFacts.v base/Bits.vo base/Types.vo base/BitBoard.vo model/Board.vo model/MoveGen.vo model/Apply.vo model/Fen.vo spec/Rules.vo
 proofs/CoreFacts.vio: proofs/CoreFacts.v base/Bits.vio base/Types.vio base/BitBoard.vio model/Board.vio model/MoveGen.vio model/Apply.vio model/Fen.vio spec/Rules.vio
 proofs/CoreFacts.vos proofs/CoreFacts.vok proofs/CoreFacts.required_vos: proofs/CoreFacts.v base/Bits.vos base/Types.vos base/BitBoard.vos model/Board.vos model/MoveGen.vos model/Apply.vos model/Fen.vos spec/Rules.vos
+proofs/ExactFacts.vo proofs/ExactFacts.glob proofs/ExactFacts.v.beautified proofs/ExactFacts.required_vo: proofs/ExactFacts.v base/Bits.vo base/Types.vo base/BitBoard.vo base/Sweep.vo geom/Geometry.vo model/Board.vo model/MoveGen.vo model/Apply.vo spec/Rules.vo proofs/BitsFacts.vo proofs/BitBoardFacts.vo spec/IterSpec.vo proofs/IterFacts.vo proofs/HashFacts.vo proofs/InvFacts.vo proofs/BridgeFacts.vo proofs/ApplyFacts.vo proofs/SiteFacts.vo proofs/LegalDefs.vo proofs/AttackDefs.vo
+proofs/ExactFacts.vio: proofs/ExactFacts.v base/Bits.vio base/Types.vio base/BitBoard.vio base/Sweep.vio geom/Geometry.vio model/Board.vio model/MoveGen.vio model/Apply.vio spec/Rules.vio proofs/BitsFacts.vio proofs/BitBoardFacts.vio spec/IterSpec.vio proofs/IterFacts.vio proofs/HashFacts.vio proofs/InvFacts.vio proofs/BridgeFacts.vio proofs/ApplyFacts.vio proofs/SiteFacts.vio proofs/LegalDefs.vio proofs/AttackDefs.vio
+proofs/ExactFacts.vos proofs/ExactFacts.vok proofs/ExactFacts.required_vos: proofs/ExactFacts.v base/Bits.vos base/Types.vos base/BitBoard.vos base/Sweep.vos geom/Geometry.vos model/Board.vos model/MoveGen.vos model/Apply.vos spec/Rules.vos proofs/BitsFacts.vos proofs/BitBoardFacts.vos spec/IterSpec.vos proofs/IterFacts.vos proofs/HashFacts.vos proofs/InvFacts.vos proofs/BridgeFacts.vos proofs/ApplyFacts.vos proofs/SiteFacts.vos proofs/LegalDefs.vos proofs/AttackDefs.vos
 proofs/FenFacts.vo proofs/FenFacts.glob proofs/FenFacts.v.beautified proofs/FenFacts.required_vo: proofs/FenFacts.v base/Bits.vo base/Types.vo base/BitBoard.vo geom/Geometry.vo model/Board.vo model/Fen.vo proofs/BitsFacts.vo
 proofs/FenFacts.vio: proofs/FenFacts.v base/Bits.vio base/Types.vio base/BitBoard.vio geom/Geometry.vio model/Board.vio model/Fen.vio proofs/BitsFacts.vio
 proofs/FenFacts.vos proofs/FenFacts.vok proofs/FenFacts.required_vos: proofs/FenFacts.v base/Bits.vos base/Types.vos base/BitBoard.vos geom/Geometry.vos model/Board.vos model/Fen.vos proofs/BitsFacts.vos
@@ -169,6 +178,9 @@ proofs/SearchFacts.vos proofs/SearchFacts.vok proofs/SearchFacts.required_vos: p
 proofs/SearchOrder.vo proofs/SearchOrder.glob proofs/SearchOrder.v.beautified proofs/SearchOrder.required_vo: proofs/SearchOrder.v base/Types.vo model/Score.vo proofs/ScoreOrder.vo model/Search.vo
 proofs/SearchOrder.vio: proofs/SearchOrder.v base/Types.vio model/Score.vio proofs/ScoreOrder.vio model/Search.vio
 proofs/SearchOrder.vos proofs/SearchOrder.vok proofs/SearchOrder.required_vos: proofs/SearchOrder.v base/Types.vos model/Score.vos proofs/ScoreOrder.vos model/Search.vos
+proofs/ShapeFacts.vo proofs/ShapeFacts.glob proofs/ShapeFacts.v.beautified proofs/ShapeFacts.required_vo: proofs/ShapeFacts.v base/Bits.vo base/Types.vo base/BitBoard.vo base/Sweep.vo geom/Geometry.vo model/Board.vo model/MoveGen.vo model/Apply.vo proofs/BitsFacts.vo proofs/BitBoardFacts.vo proofs/BridgeFacts.vo spec/Rules.vo proofs/HashFacts.vo proofs/InvFacts.vo proofs/LegalDefs.vo
+proofs/ShapeFacts.vio: proofs/ShapeFacts.v base/Bits.vio base/Types.vio base/BitBoard.vio base/Sweep.vio geom/Geometry.vio model/Board.vio model/MoveGen.vio model/Apply.vio proofs/BitsFacts.vio proofs/BitBoardFacts.vio proofs/BridgeFacts.vio spec/Rules.vio proofs/HashFacts.vio proofs/InvFacts.vio proofs/LegalDefs.vio
+proofs/ShapeFacts.vos proofs/ShapeFacts.vok proofs/ShapeFacts.required_vos: proofs/ShapeFacts.v base/Bits.vos base/Types.vos base/BitBoard.vos base/Sweep.vos geom/Geometry.vos model/Board.vos model/MoveGen.vos model/Apply.vos proofs/BitsFacts.vos proofs/BitBoardFacts.vos proofs/BridgeFacts.vos spec/Rules.vos proofs/HashFacts.vos proofs/InvFacts.vos proofs/LegalDefs.vos
 proofs/SiteFacts.vo proofs/SiteFacts.glob proofs/SiteFacts.v.beautified proofs/SiteFacts.required_vo: proofs/SiteFacts.v spec/Rules.vo base/Bits.vo base/Types.vo base/BitBoard.vo base/Sweep.vo geom/Geometry.vo model/Board.vo model/MoveGen.vo model/Apply.vo proofs/BitsFacts.vo proofs/BitBoardFacts.vo spec/IterSpec.vo proofs/IterFacts.vo
 proofs/SiteFacts.vio: proofs/SiteFacts.v spec/Rules.vio base/Bits.vio base/Types.vio base/BitBoard.vio base/Sweep.vio geom/Geometry.vio model/Board.vio model/MoveGen.vio model/Apply.vio proofs/BitsFacts.vio proofs/BitBoardFacts.vio spec/IterSpec.vio proofs/IterFacts.vio
 proofs/SiteFacts.vos proofs/SiteFacts.vok proofs/SiteFacts.required_vos: proofs/SiteFacts.v spec/Rules.vos base/Bits.vos base/Types.vos base/BitBoard.vos base/Sweep.vos geom/Geometry.vos model/Board.vos model/MoveGen.vos model/Apply.vos proofs/BitsFacts.vos proofs/BitBoardFacts.vos spec/IterSpec.vos proofs/IterFacts.vos
